@@ -98,7 +98,7 @@ func runProp(cfg *PropCfg, timeout time.Duration, overlay map[string][]byte, wor
 			if c.C.Trusted {
 				continue
 			}
-			if cfg.re != nil && !cfg.re.MatchString(c.C.Key()) {
+			if !cfg.selects(c.C.Key()) {
 				continue
 			}
 			name := pk.PkgPath + "." + c.C.Key()
@@ -112,8 +112,18 @@ func runProp(cfg *PropCfg, timeout time.Duration, overlay map[string][]byte, wor
 			r.notes = append(r.notes, res.Notes...)
 			all = append(all, res.Queries...)
 		}
+		if cfg.selects("directives") {
+			if res := prog.CheckDirectives(pk.PkgPath); res != nil {
+				if res.Unsupported != "" {
+					r.notVerified[pk.PkgPath+".directives"] = res.Unsupported
+				} else {
+					r.notes = append(r.notes, res.Notes...)
+					all = append(all, res.Queries...)
+				}
+			}
+		}
 		for _, ld := range prog.Lemmas[pk.PkgPath] {
-			if cfg.re != nil && !cfg.re.MatchString("lemma "+ld.L.Name) {
+			if !cfg.selects("lemma " + ld.L.Name) {
 				continue
 			}
 			name := pk.PkgPath + ".lemma " + ld.L.Name
